@@ -17,7 +17,17 @@ def main(ctx):
     J.append({'mod': MOD, 'fn': 'intervals', 'mode': 'sym', 'args': {'regularization': False, 'cap': cap}})
     J.append({'mod': MOD, 'fn': 'bilateral', 'mode': 'sym', 'args': {'cap': cap}})
     J.append({'mod': MOD, 'fn': 'bilateral', 'mode': 'sym', 'args': {'R': 4, 'C': 3, 'sigma_space': 0.4, 'cap': cap}})
+    # bilateral value (documented weighted mean) on concrete masks, symbolic disparities
+    J.append({'mod': MOD, 'fn': 'bilateral', 'mode': 'sym', 'args': {'value': True, 'conc_mask': [0, 1, 0, 0, 0, 0, 0, 0, 64], 'cap': 60}})
+    J.append({'mod': MOD, 'fn': 'bilateral', 'mode': 'sym', 'args': {'value': True, 'conc_mask': [0] * 12, 'R': 3, 'C': 4, 'sigma_color': 1.5, 'cap': 60}})
+    J.append({'mod': MOD, 'fn': 'bilateral', 'mode': 'sym', 'args': {'value': True, 'conc_mask': 'random', 'R': 4, 'C': 4, 'seed': ctx.seed, 'cap': 60}})
+    # 50-pixel processing blocks of the bilateral filter
+    J.append({'mod': MOD, 'fn': 'bilateral_blocks', 'mode': 'sym', 'args': {'axis': 1, 'N': 53, 'lo': 47, 'hi': 53, 'cap': cap}})
+    J.append({'mod': MOD, 'fn': 'bilateral_blocks', 'mode': 'sym', 'args': {'axis': 0, 'N': 52, 'lo': 46, 'hi': 52, 'cap': cap}})
     if not ctx.quick:
+        J.append({'mod': MOD, 'fn': 'bilateral', 'mode': 'sym', 'args': {'value': True, 'conc_mask': 'random', 'R': 5, 'C': 5, 'sigma_space': 1.4, 'seed': ctx.seed + 1, 'cap': 300}})
+        J.append({'mod': MOD, 'fn': 'bilateral_blocks', 'mode': 'sym', 'args': {'axis': 1, 'N': 103, 'lo': 97, 'hi': 103, 'cap': cap}})
+        J.append({'mod': MOD, 'fn': 'bilateral_blocks', 'mode': 'sym', 'args': {'axis': 0, 'N': 101, 'lo': 96, 'hi': 101, 'cap': cap}})
         m(R=4, C=4); m(R=5, C=5, fs=5, stripe=[1, 2, 3]); m(R=3, C=202, stripe=[1, 199, 201]); m(R=201, C=3, stripe=[0, 199, 201])
         m(R=5, C=104, fs=5, stripe=[1, 101, 102]); m(R=3, C=101, stripe=[1, 98, 101]); m(R=3, C=100, stripe=[1, 97, 100])
         J.append({'mod': MOD, 'fn': 'intervals', 'mode': 'sym', 'args': {'R': 3, 'C': 4, 'regularization': False, 'cap': cap}})
@@ -32,8 +42,12 @@ def main(ctx):
                               'invalid pixels and the edge band untouched, a valid interior pixel becomes a value satisfying the order-statistics '
                               'definition of the median of the valid window values; shapes straddling the 100-pixel blocks with a symbolic stripe across '
                               'the boundary; median_for_intervals: same median on the bound bands, only bit 11 may be raised (regularisation stubbed)')
-    ctx.assumptions += ['C10: the value of the bilateral weighted mean (min <= result <= max) is NOT decided (nonlinear real arithmetic beyond the caps); '
-                        'for bilateral only mask / invalid-pixel / edge-band preservation and finiteness are claimed']
+    ctx.cov['explanation'] += ('; bilateral: frame conditions on symbolic masks; value == documented weighted mean (result * sum w == sum w d, w = spatial '
+                               'Gaussian x range Gaussian) on concrete mask patterns with symbolic disparities, decided as a QF_NRA identity after replacing '
+                               'the uninterpreted exp atoms (matched to the documented arguments by solver lemmas) by fresh positive reals; independence from '
+                               'the 50-pixel blocks by comparing a block-straddling map with a single-block crop in one symbolic run')
+    ctx.assumptions += ['C10 (bilateral): reals-for-floats; "between min and max of the window" follows mathematically from the weighted-mean identity with positive weights, it is not a separate query; '
+                        'value jobs use concrete validity masks']
 
 
 def replay(body):
